@@ -134,6 +134,7 @@ class Engine:
         self.inputs = {}           # name -> (kind, size, z3 term)
         self.lenf = z3.Function("len", U, z3.IntSort())
         self.unwind = 64
+        self.max_depth = 60
 
     # ---- symbolic inputs ---------------------------------------------------------------
     def in_bv(self, name, n):
@@ -193,6 +194,7 @@ class Engine:
                 self.solver.add(t != o)
             self.solver.add(self.lenf(t) == len(b))
             self.const_atoms[b] = t
+            self.model = None
             if b == BLANK_HASH_BYTES: self.solver.add(self.tagfn()(t) == -1)
         return self.const_atoms[b]
 
@@ -237,11 +239,21 @@ class Engine:
         tag = self.tagfn()
         self.solver.add(tag(r) == tagno)
         self.solver.add(self.lenf(r) == 32)
+        # well-foundedness: a hash never occurs inside its own pre-image (directly or transitively); without this
+        # EUF admits cyclic "tries" (H(path, c) == c), on which structural walks do not terminate
+        for a in args:
+            self.solver.add(self.rank(r) > self.rank(a))
+        self.model = None          # new axioms: the cached guiding model may not satisfy them
         for i, a in enumerate(args):
             self.solver.add(inv[i](r) == a)
         self.hash_axioms += 1 + len(args)
         self.stats["keccak"] += 1
         return SBytes([("a", 32, r)])
+
+    def rank(self, t):
+        if not hasattr(self, "_rank"):
+            self._rank = z3.Function("rank", U, z3.IntSort())
+        return self._rank(t)
 
     def tagfn(self):
         if not hasattr(self, "_tag"):
@@ -537,6 +549,8 @@ class Interp:
         raise Unsupported(f"call to {fn!r}")
 
     def run_function(self, fn, args, kwargs):
+        if len(self.frames) > self.e.max_depth:
+            raise Unsupported(f"call depth bound {self.e.max_depth} exceeded (unwinding assertion) in {getattr(fn, '__qualname__', fn)}; stack: " + " > ".join(self.names[-12:]))
         fn = inspect.unwrap(fn)
         node = self.fn_ast(fn)
         a = node.args
@@ -552,6 +566,8 @@ class Interp:
         is_gen = any(isinstance(x, (ast.Yield, ast.YieldFrom)) for x in ast.walk(node))
         if is_gen: loc["__yield__"] = PList([])
         self.frames.append(loc)
+        if not hasattr(self, "names"): self.names = []
+        self.names.append(getattr(fn, "__name__", "?"))
         try:
             try:
                 self.block(node.body); res = None
@@ -559,7 +575,7 @@ class Interp:
                 res = r.v
             if is_gen: res = self.frames[-1]["__yield__"]
         finally:
-            self.frames.pop()
+            self.frames.pop(); self.names.pop()
         for d in reversed(node.decorator_list):
             dv = eval(compile(ast.Expression(d), "<dec>", "eval"), fn.__globals__)
             if dv in (classmethod, staticmethod, property): continue
@@ -584,9 +600,11 @@ class Interp:
         self.ev(s.value)
     def s_Pass(self, s): pass
     def e_Yield(self, n):
-        self.frames[-1]["__yield__"].items.append(self.ev(n.value)); return None
+        v = self.ev(n.value) if n.value is not None else None      # evaluate first: a merge inside may replace the frame's list
+        self.frames[-1]["__yield__"].items.append(v); return None
     def e_YieldFrom(self, n):
-        self.frames[-1]["__yield__"].items.extend(self.iterate(self.ev(n.value))); return None
+        vals = self.iterate(self.ev(n.value))
+        self.frames[-1]["__yield__"].items.extend(vals); return None
     def comp(self, n, elt_fn):
         out = []
         def rec(i):
@@ -708,6 +726,31 @@ class Interp:
             except Cont: continue
         else:
             self.block(s.orelse)
+
+    def s_While(self, s):
+        for _ in range(self.e.unwind):
+            if not self.e.branch_on(self.ev(s.test)):
+                self.block(s.orelse); return
+            try: self.block(s.body)
+            except Brk: return
+            except Cont: continue
+        raise Unsupported(f"unwinding bound {self.e.unwind} exceeded in while loop at line {s.lineno}")
+
+    def s_ImportFrom(self, s):
+        import importlib
+        mod = importlib.import_module(s.module)
+        for a in s.names: self.frames[-1][a.asname or a.name] = getattr(mod, a.name)
+
+    def s_Import(self, s):
+        import importlib
+        for a in s.names: self.frames[-1][a.asname or a.name.split(".")[0]] = importlib.import_module(a.name.split(".")[0])
+
+    def e_DictComp(self, n):
+        m = SMap()
+        def add():
+            m.entries.append((self.ev(n.key), self.ev(n.value)))
+        self.comp(n, add)
+        return m
 
     def s_Try(self, s):
         try:
@@ -958,6 +1001,8 @@ class Interp:
         if isinstance(obj, PList):
             if name == "append": return BuiltinMethod(lambda v: obj.items.append(v))
             if name == "extend": return BuiltinMethod(lambda v: obj.items.extend(self.iterate(v)))
+            if name == "pop": return BuiltinMethod(lambda *a: obj.items.pop(*a))
+            if name == "insert": return BuiltinMethod(lambda i, v: obj.items.insert(i, v))
             raise Unsupported(f"list.{name}")
         if isinstance(obj, BaseException) and name == "args": return obj.args
         if isinstance(obj, list) and name == "index":
